@@ -266,6 +266,13 @@ func runC16(c c16Case, rec *evid.Rec) (core.Result, error) {
 		if err := lg.Close(); err != nil {
 			return res, fmt.Errorf("close: %v", err)
 		}
+		if c.FlipRec%2 == 0 {
+			// what rotation (doneWriting) leaves behind: the file ends exactly after its last record
+			if err := os.Truncate(path, int64(endWritten)); err != nil {
+				return res, err
+			}
+			res.Classes = append(res.Classes, "file_ends_after_last_record")
+		}
 		lg, err = badger.VerifLogOpen(path, 1, reg, size, false, opt)
 		if err != nil {
 			return res, fmt.Errorf("reopen: %v", err)
@@ -337,7 +344,7 @@ func trunc(b []byte) []byte {
 
 func TestC16_LogRecords(t *testing.T) {
 	core.Run(t, "C16", "records",
-		"rapid-generated logs of 1-8 groups (non-transactional records and 1-4 entry transactions with end markers; the newest transaction may lack its marker or carry a mismatching one), key lengths incl. varint boundaries (127/128/16383/16384) and 65000, value sizes 0..70000, all meta-bit combinations, expiry up to 2^64-1, AES key 0/16/24/32 bytes, optional close+reopen; written through logFile.writeEntry, read through logFile.iterate / read+decodeEntry / safeRead.Entry. Oracle: delivered records == written records of complete groups in order with pointers equal to the write offsets and resolving to the same key/value; valid end offset == end of the last complete group; then one byte of one record (header, key, value or CRC) is xor-ed: exactly the groups before it are delivered. Non-trivial = log with a multi-entry transaction and a boundary-valued field.",
+		"rapid-generated logs of 1-8 groups (non-transactional records and 1-4 entry transactions with end markers; the newest transaction may lack its marker or carry a mismatching one), key lengths incl. varint boundaries (127/128/16383/16384) and 65000, value sizes 0..70000, all meta-bit combinations, expiry up to 2^64-1, AES key 0/16/24/32 bytes, optional close+reopen (half of them with the file cut exactly after the last record, as rotation leaves it); written through logFile.writeEntry, read through logFile.iterate / read+decodeEntry / safeRead.Entry. Oracle: delivered records == written records of complete groups in order with pointers equal to the write offsets and resolving to the same key/value; valid end offset == end of the last complete group; then one byte of one record (header, key, value or CRC) is xor-ed: exactly the groups before it are delivered. Non-trivial = log with a multi-entry transaction and a boundary-valued field.",
 		genC16, runC16)
 }
 
